@@ -74,6 +74,15 @@ def make_jobs(rnd, tier):
             jobs.append(dict(cfg=dict(p=p, n=n, res=0, ign=0),
                              prog=[["input", 0, "priv", 0], ["input", 1, "priv", 1], ["input", 2, "priv", 2], ["const", 4, ["int", 1]], ["guarded", 0, [inner]], outer],
                              ins=[c, a, b], op="reuse-after-guard:%s,%s" % (inner[2], outer[2]), kinds="priv/priv/priv", full=1))
+        # array access with a secret index: the element read / the array written is determined by the contents and the index
+        for (e0, e1, e2, ix) in ((1, 3, 0, 1), (2, 0, 3, 0), (1, 2, 0, 2), (0, 1, 3, 1)):
+            jobs.append(dict(cfg=dict(p=p, n=n, res=0, ign=0),
+                             prog=[["input", 0, "priv", 0], ["input", 1, "priv", 1], ["input", 2, "priv", 2], ["input", 3, "priv", 3], ["arrnew", 4, [0, 1, 2]], ["arrget", 5, 4, [3]]],
+                             ins=[e0, e1, e2, ix], op="array-read", kinds="priv[3]/priv", full=1, last_only=1))
+            jobs.append(dict(cfg=dict(p=p, n=n, res=0, ign=0),
+                             prog=[["input", 0, "priv", 0], ["input", 1, "priv", 1], ["input", 2, "priv", 2], ["input", 3, "priv", 3], ["arrnew", 4, [0, 1, 2]], ["arrset", 4, [3], 0],
+                                   ["const", 6, ["int", 1]], ["arrget", 5, 4, [6]]],
+                             ins=[e0, e1, e2, ix], op="array-write-read", kinds="priv[3]/priv", full=1, last_only=1))
         # error checking switched off (ignore_errors): whatever the operands, a result that is returned is still determined by them
         for op in ("truediv", "floordiv", "mod"):
             for (a, b) in ((0, 0), (3, 0), (0, 3), (6, 3)):
